@@ -80,7 +80,7 @@ ENTRIES = [
 ENC_PROPS = {
  'C04': ('CER', 'DER'), 'C05': ('BER', 'CER', 'DER'), 'C06': ('BER', 'CER', 'DER'), 'C07': ('BER', 'CER', 'DER'),
  'C11': ('BER', 'CER', 'DER'), 'C12': ('BER', 'CER', 'DER'), 'C13': ('BER',),
- 'C17': ('BER', 'CER', 'DER'), 'C18': ('BER', 'CER', 'DER'),
+ 'C17': ('BER', 'CER', 'DER'),
 }
 ENC_WITNESS = {
  'stray-eoo': "('enc', ('tag', 'E', 'C', 9, ('int',)), 211, '%s', False, 0)",
@@ -115,6 +115,20 @@ ENTRIES.append(('C16', 'time-fraction-zeros', ['der:time-fraction-zeros'], "('c1
 ENTRIES.append(('C20', 'time-fraction-zeros', ['time-fraction-zeros'], "('c20-str', 'GeneralizedTime', '197008280053.020Z', 'CER')"))
 
 EXTRA = [
+ {'id': 'KF-C12-default-constructed-history', 'status': 'open', 'property': 'C12',
+  'symptom': ['outcome-differs-from-isolated-call:*', 'value-changed-by:*', 'schema-changed-by:*', 'threaded-call-differs:*'], 'zone': ['default-constructed'],
+  'what': FAMILIES['default-constructed']['what'] + ' -- seen here as: whether encoding a value with a constructed DEFAULT component succeeds depends on which read accessors ran before (they leave schema placeholders in the value or in the shared DEFAULT object, on which == then raises)',
+  'why_open': FAMILIES['default-constructed']['why_open'],
+  'witness': "('c12-history', ('set', (('f0', ('seq', (('f0', ('bits',), 'req', None), ('f1', ('tag', 'E', 'P', 3, ('seq', (('f0', ('real',), 'req', None),))), 'opt', None))), 'def', {'f0': (2042, 0)}),)), {'f0': {'f0': (2042, 0)}}, 0, ())"},
+ {'id': 'KF-C12-default-choice-history', 'status': 'open', 'property': 'C12',
+  'symptom': ['outcome-differs-from-isolated-call:*', 'value-changed-by:*', 'schema-changed-by:*', 'threaded-call-differs:*'], 'zone': ['default-choice'],
+  'what': FAMILIES['default-choice']['what'], 'why_open': FAMILIES['default-choice']['why_open'],
+  'witness': "('c12-history', ('set', (('f0', ('choice', (('a0', ('bits',)),)), 'def', ('a0', (18, 237397))), ('f1', ('octs',), 'opt', None))), {'f0': ('a0', (18, 237397))}, 0, ())"},
+ {'id': 'KF-C12-emptyable-optional-materialised', 'status': 'open', 'property': 'C12',
+  'symptom': ['value-changed-by:*', 'outcome-differs-from-isolated-call:*'], 'zone': ['absent-optional-emptyable-record'],
+  'what': FAMILIES['emptyable-optional']['what'] + ' -- seen here as: encoding (BER, native) a value whose OPTIONAL SEQUENCE/SET component without mandatory members is absent changes the value object itself (the component becomes present-and-empty), so later calls on the same object differ from the same calls on a fresh one',
+  'why_open': FAMILIES['emptyable-optional']['why_open'],
+  'witness': "('c12-history', ('seq', (('f0', ('seq', (('g', ('int',), 'opt', None),)), 'opt', None),)), {}, 0, ())"},
  {'id': 'KF-C17-emptyable-optional-object-side', 'status': 'open', 'property': 'C17',
   'symptom': ['bare:*:bytes-differ', 'native:value-differs:*'], 'zone': ['absent-optional-emptyable-record'],
   'what': FAMILIES['emptyable-optional']['what'] + ' -- seen here as: the value object gains a present-and-empty component the Python tree (rightly) lacks, so the two encodings differ and the native round trip returns an extra empty member',
